@@ -76,6 +76,11 @@ def _udp_pair() -> tuple[socket.socket, socket.socket]:
     return a, b
 
 
+def _tmo(s: dict, j: int):
+    ts = s.get("timeouts")
+    return ts[j] if ts and j < len(ts) else None
+
+
 def run_threads(case: dict) -> list[str]:
     spec = case["spec"]
     kind = case["target"]
@@ -91,15 +96,25 @@ def run_threads(case: dict) -> list[str]:
         csock, peer = _udp_pair()
         client = UDPNetworkClient(csock, DatagramProtocol(sers.build(spec)))
         expected = sum(len(s["packets"]) for s in case["senders"])
+    # sends with a timeout may legitimately give up while waiting for the lock (then they put nothing on the wire):
+    # what the reader can expect for sure are the sends without a timeout
+    timed = any(t is not None for s in case["senders"] for t in s.get("timeouts", []))
+    if timed:
+        if kind == "tcp":
+            expected = sum(len(R.expected_chunks(spec, h)) for s in case["senders"]
+                           for j, h in enumerate(s["packets"]) if _tmo(s, j) is None)
+        else:
+            expected = sum(1 for s in case["senders"] for j, _ in enumerate(s["packets"]) if _tmo(s, j) is None)
     peer.settimeout(0.2)
     got = bytearray()
     dgrams: list[bytes] = []
     stop = threading.Event()
+    senders_done = threading.Event()
     t_end = time.monotonic() + DEADLINE
 
     def reader() -> None:
         while not stop.is_set() and time.monotonic() < t_end:
-            if (len(got) if kind == "tcp" else len(dgrams)) >= expected:
+            if (len(got) if kind == "tcp" else len(dgrams)) >= expected and (not timed or senders_done.is_set()):
                 # everything expected is here; linger a moment for surplus bytes (a duplicated packet)
                 peer.settimeout(0.02)
                 try:
@@ -135,7 +150,11 @@ def run_threads(case: dict) -> list[str]:
             return
         for j, h in enumerate(s["packets"]):
             try:
-                client.send_packet(R.packet_of(spec, h))
+                t = _tmo(s, j)
+                if t is None:
+                    client.send_packet(R.packet_of(spec, h))
+                else:
+                    client.send_packet(R.packet_of(spec, h), timeout=t)
             except Exception as e:
                 out = R.exc_enum(e)
             else:
@@ -154,6 +173,7 @@ def run_threads(case: dict) -> list[str]:
         for t in ths:
             t.join(DEADLINE)
         alive = any(t.is_alive() for t in ths)
+        senders_done.set()
         rt.join(DEADLINE + 5)
         stop.set()
     finally:
@@ -199,9 +219,11 @@ def oracle(case: dict, real: list[str]) -> str | None:
     for i, s in enumerate(case["senders"]):
         for j, h in enumerate(s["packets"]):
             o = out.get((f"s{i}", j))
+            if o == "timeout" and _tmo(s, j) is not None:
+                continue        # documented outcome of a send with a timeout under contention; it must have written nothing
             if o != "ok":
                 return f"send_packet call {j} of thread s{i}: {o}"
-        parts.append(list(s["packets"]))
+        parts.append([h for j, h in enumerate(s["packets"]) if out.get((f"s{i}", j)) == "ok"])
     bad = [ln for ln in real if ln.startswith(("rx-err", "rx-left"))]
     if bad:
         return f"the peer cannot parse the stream: {bad[0]}"
